@@ -29,3 +29,56 @@ unit("C40", "Revisitable group-by partitions its input into maximal runs",
 
 # Properties not claimed, with the reason (kept current).
 NOT_APPLICABLE = {}
+
+unit("C23", "In-header metadata fields are isolated and report their own previous value",
+     rule="every (bit_offset in -64..=191, num_of_bits) spec the implementation's own assert_spec admits (1180 specs: sub-byte fields "
+          "accessed through u8..usize, aligned 8/16/32/64-bit fields with masks none/all-ones/low-3-clear/forwarding-style/single-byte/random) "
+          "x every accessor (load, store, atomic variants, compare_exchange success+failure, fetch_add/sub/and/or, fetch_update Some/None) "
+          "x randomly pre-filled 64-byte headers, plus 64-op sequences on a persistent header; non-trivial = neighbouring bits are non-zero or the "
+          "op wraps/fails; distinct = (op, width, shift-in-byte, masked?, access type, outcome class)",
+     technique="reference-model monitor: bit-vector model of the header vs the real HeaderMetadataSpec accessors, whole-buffer comparison after every op",
+     level_text="Every accessor of every legal header spec is run on randomly pre-filled headers and compared (return value incl. CAS Ok/Err "
+                "values, and the full buffer) with a bit-vector model. Exhaustive over specs and ops, sampled over header contents.",
+     note="Trusts the bit-vector model in units/src/c23.rs; orderings restricted to SeqCst/Relaxed/Acquire (Release orderings on sub-byte "
+          "fields panic inside std by construction of the implementation and are outside the property's statement).",
+     design_ref="2/C23", miri=True,
+     floors={"quick": {"evaluations": 9000000, "ops_with_nonzero_neighbour_bits": 8000000, "cas_expected_ok": 800000,
+                       "cas_expected_err": 500000, "ops_wide_field_masked": 300000}})
+
+unit("C32", "Space descriptors encode and decode their heap range",
+     rule="three discontiguous VM layouts (32-bit, custom heap end, 64-bit range) x start = odd 14-bit mantissa << (18+e), e in 4..=31 x 1..=1023 chunks: "
+          "all mantissas/exponents x boundary chunk counts, boundary mantissas x all chunk counts, every range touching heap_end, 1M PRNG pairs per layout "
+          "(thorough: fully exhaustive + 20M PRNG); 400k+ discontiguous descriptors created sequentially and from 4 threads; distinct = (layout, exponent, "
+          "mantissa class, chunk class, top-of-heap?)",
+     technique="round-trip monitor against the arithmetic definition (u128) of start/extent/contiguity/top-of-heap; uniqueness set for discontiguous descriptors",
+     level_text="Differential round-trip of create_descriptor_from_heap_range against the definition over the encodable lattice (exhaustive in the thorough tier) "
+                "and uniqueness of discontiguous descriptors incl. concurrent creation.",
+     note="Each layout runs in the same process via set_vm_layout (release build accepts re-setting); starts needing >14 mantissa bits are outside the encoding and only counted.",
+     design_ref="2/C32",
+     floors={"quick": {"contiguous_ranges_checked": 12000000, "top_of_heap_ranges": 1850, "layouts_run": 3,
+                       "discontiguous_descriptors": 800000, "discontiguous_concurrent": 400000}})
+
+unit("C33", "Alignment and size arithmetic meet their specifications",
+     rule="boundary lattice (0, 1, 2^k+-1, 1.5*2^k, usize::MAX-d, q*align+-1) x all 64 power-of-two alignments + 2.5M PRNG values (thorough 200M) for "
+          "raw_align_up/down, rshift_align_up, bytes_to_pages_up, chunk/page helpers, Address::align_*; align_allocation(_no_fill) called directly on arbitrary regions "
+          "(incl. near usize::MAX) and through the bump and large-object allocators of a live MMTK (gap fill with ALIGNMENT_VALUE, nothing else written); "
+          "get_maximum_aligned_size vs the worst-case padding; overflowing inputs excluded as the property says; distinct = (function, alignment, boundary class)",
+     technique="reference-model monitor: u128 arithmetic definitions vs the real functions; shadow buffer comparison for the alignment-gap fill",
+     level_text="Differential test of every rounding helper against its mathematical definition over a boundary lattice plus random inputs; align_allocation is also "
+                "observed inside real bump/LOS allocations with a shadow of the touched memory.",
+     note="Inputs whose mathematical result exceeds usize::MAX are excluded (the property's 'does not overflow').",
+     design_ref="2/C33", miri=True,
+     floors={"quick": {"arith_lattice_cases": 22000, "arith_random_cases": 2500000, "bump_fast_path": 200000, "bump_slow_path": 1000,
+                       "los_allocations": 2000, "max_aligned_size_via_mi_bin_sharp": 296}})
+
+unit("C39", "Option setting is all-or-nothing and parsers match their grammar",
+     rule="~120 fixed boundary strings + grammar-directed generation with 1-2 mutations and foreign-typed values over every option name (boundary numbers 0, 2^16, 2^32, 2^63, "
+          "2^64+-1, suffix-overflow thresholds, 40-digit strings, unicode digits/whitespace): 250k single set_from_string calls and 50k bulk strings (thorough 15M / 2M); "
+          "reference parsers written from the doc comments; only strings the documentation classifies unambiguously are judged; distinct = (option, string class, expected verdict, mutation kind)",
+     technique="reference-model monitor: independent parsers/validators written from the documented grammar + full snapshot comparison of all 28 options before/after each call",
+     level_text="Every call's boolean result, the all-or-nothing effect on all options, the parsed value, and bulk = prefix-of-pairs semantics are compared with reference parsers; "
+                "free-standing FromStr parsers likewise. Sampled exploration of the string space.",
+     note="Ambiguous strings (e.g. 'Delegated:1024', T suffix, '+0') are recorded as notes, not judged. CPU lists wider than 2000 cores skipped (quadratic sort in the implementation).",
+     design_ref="2/C39", miri=True,
+     floors={"quick": {"single_settings": 250000, "bulk_strings": 50000, "bulk_all_succeed": 10000, "bulk_with_failure": 25000,
+                       "set_expected_accept": 40000, "set_expected_reject": 100000, "from_str_invalid": 50000}})
